@@ -328,7 +328,8 @@ func (g *Gen) commentLine() string {
 	}
 	f := fams[g.Rng.Intn(len(fams))]
 	pick := func(xs []string) string { return xs[g.Rng.Intn(len(xs))] }
-	return pick(f.lead) + pick(f.kws) + pick(f.seps) + pick(f.tails)
+	// (the hole also occurs inside block comments: no comment terminator may arise from the concatenation)
+	return strings.ReplaceAll(pick(f.lead)+pick(f.kws)+pick(f.seps)+pick(f.tails), "*/", "* /")
 }
 
 func (g *Gen) fill(src string) string {
@@ -567,6 +568,12 @@ func (g *Gen) Emit(dir, pkgName string, b Binding, snips []*Snippet, theme strin
 		os.WriteFile(filepath.Join(dir, "noimp_gen.go"), []byte(nb.String()), 0o644)
 		classSet["importless-sibling"] = true
 	}
+	// declarations without a body need an assembly file in the package (an empty one will do)
+	for _, sn := range snips {
+		if sn.Name == "bodiless" {
+			os.WriteFile(filepath.Join(dir, "stub_gen.s"), []byte("// bodies of the declarations without one\n"), 0o644)
+		}
+	}
 	// a file that pins its own language version with a build constraint (satisfied by every
 	// supported toolchain, so the file stays part of the package); per-file version logic must
 	// stay per file
@@ -620,7 +627,7 @@ func (g *Gen) Generate(n int, manifest string) error {
 			return hasClass(cands[a], "api") && !hasClass(cands[c], "api") && theme != "real"
 		})
 		chosen := append([]*Snippet(nil), cands[:k]...)
-		// rotation: whatever the seed, every snippet that is not API-specific occurs in one of
+		// rotation: whatever the seed, every snippet that is not API-specific occurs (twice) in
 		// any len(rest) consecutive packages (small corpora would otherwise miss whole families,
 		// because the namesake themes put the API snippets first)
 		var rest []*Snippet
@@ -629,7 +636,7 @@ func (g *Gen) Generate(n int, manifest string) error {
 				rest = append(rest, s)
 			}
 		}
-		for _, j := range []int{i % len(rest), (i*7 + 3) % len(rest)} {
+		for _, j := range []int{i % len(rest), (i + len(rest)/2) % len(rest)} {
 			s := rest[j]
 			dup := false
 			for _, c := range chosen {
